@@ -297,8 +297,11 @@ func GenWildModel(rng *rand.Rand) *Model {
 	for i := 0; i < np; i++ {
 		xn := "x" + itoa(i)
 		x := Rel{Name: xn, Rewrite: This(), Restr: []Ref{{Type: terms[rng.Intn(nt)], Wildcard: true}}}
-		if rng.Intn(4) == 0 {
+		if rng.Intn(2) == 0 {
 			x.Restr = append(x.Restr, Ref{Type: terms[rng.Intn(nt)], Wildcard: rng.Intn(2) == 0})
+		}
+		if rng.Intn(3) == 0 {
+			x.Restr = append(x.Restr, Ref{Type: terms[rng.Intn(min(ns+1, nt))], Wildcard: rng.Intn(3) == 0})
 		}
 		doc.Rels = append(doc.Rels, x)
 		pn := "p" + itoa(i)
@@ -307,11 +310,21 @@ func GenWildModel(rng *rand.Rand) *Model {
 			ops[0], ops[1] = ops[1], ops[0]
 		}
 		var rw *U
-		switch rng.Intn(6) {
+		switch rng.Intn(9) {
 		case 0:
 			rw = Diff(ops[0], ops[1])
 		case 1:
 			rw = Union(This(), ops[0], ops[1])
+		case 2, 3:
+			// an intersection over relations with public restrictions: a public type whose type does not
+			// survive the intersection is still reachable from it
+			rw = Inter(ops...)
+		case 4:
+			if i > 0 {
+				rw = Inter(ops[0], ops[1], CU("x"+itoa(rng.Intn(i))))
+			} else {
+				rw = Inter(ops[1], ops[0])
+			}
 		default:
 			rw = Union(ops...)
 		}
